@@ -360,7 +360,9 @@ def check_list(ctx, case):
     sig = sig_of(case, n_ds='2' if n_ds == 2 else '3+', same_conds=same_conds, noise=noise_mode,
                  remove_mean=kw.get('remove_mean', False))
     data = lambda: witness(case, datasets=metas, precs=precs)  # noqa: E731
-    ok, rd = ctx.guarded('list_vs_reference', sig, calc_rdm, dss, data=data, **kw)
+    # "a list" in the broad sense the code accepts (any iterable): list, tuple or a one-shot generator
+    coll = [dss, tuple(dss), (d for d in dss)][(n_ds + case['n_ch']) % 3]
+    ok, rd = ctx.guarded('list_vs_reference', sig, calc_rdm, coll, data=data, **kw)
     if not ok:
         return
     ctx.case('list_vs_reference', sig, sample={'n_datasets': n_ds, 'labels_per_ds':
